@@ -129,6 +129,16 @@ def static_cases(ctx):
         if tpb in (24, 96):
             hold_t = r.choice([24, 48, 12, 6]) if tpb == 24 else r.choice([96, 48, 24])
         hold = hold_t / tpb
+        H = hold_t                                   # the stated duration in ticks (exact)
+        if r.random() < 0.25 and tpb >= 8:
+            # a stated duration that is NOT a whole number of ticks (0.29 beats = 6.96 ticks at 24 per beat): "at least its stated
+            # number of beats" means the value stays until the first tick at or after it, never one tick less
+            from fractions import Fraction as _F
+            hold = r.choice([0.29, 0.7, 1.1, 0.35, 0.55])
+            H = _F(str(hold)) * tpb
+            if H.denominator == 1:
+                H = int(H)
+            hold_t = int(H) + (0 if isinstance(H, int) else 1)      # whole ticks the value is held (for sizes below)
         vals = list(range(100, 100 + r.randint(2, 6)))
         tl = iso.Timeline(120, output_device=OutputDevice(), clock_source=DummyClock(ticks_per_beat=tpb))
         # mostly endless for the length of the run; sometimes the shared inner pattern ends: then every reader ends with it,
@@ -196,8 +206,8 @@ def static_cases(ctx):
                 states = {(-1, st, cv) for (_, st, cv) in states}   # the elements start over at the next change; the held value stays
             nxt, ended, exps = set(), False, []
             for (idx, start, cur_val) in states:
-                may_hold = start is not None and (j - start < hold_t or (j - start == hold_t and not dyadic))
-                may_advance = start is None or j - start >= hold_t
+                may_hold = start is not None and (j - start < H or (j - start == H and not dyadic))
+                may_advance = start is None or j - start >= H
                 if may_hold:
                     exps.append(cur_val)
                     if v == cur_val:
@@ -226,7 +236,9 @@ def static_cases(ctx):
         validated = False
         if ctx.model_available and (tpb & (tpb - 1) == 0) and not bad and allreads:
             from fractions import Fraction
-            lines = ["new %d/%d" % (hold_t, tpb)]
+            from fractions import Fraction as _F2
+            dq = _F2(H) / tpb
+            lines = ["new %d/%d" % (dq.numerator, dq.denominator)]
             rw = sorted(inner_rewound)
             for (sq, j, k, v, t) in allreads:
                 while rw and rw[0] < sq:
@@ -241,11 +253,12 @@ def static_cases(ctx):
             if got != mdl:
                 ctx.disagreement("static pattern: implementation returned elements %s, the model %s (tpb %d, hold %d ticks)" % (got[:12], mdl[:12], tpb, hold_t),
                                  {"suite": "static", "tpb": tpb, "hold_ticks": hold_t, "lines": lines})
-        ctx.case(("static", tpb, hold_t, tuple(vals), nreaders, n), nontrivial=nreaders >= 2, validated=validated,
+        ctx.count("static:duration=%s" % ("whole-ticks" if isinstance(H, int) else "between-ticks"))
+        ctx.case(("static", tpb, str(H), tuple(vals), nreaders, n), nontrivial=nreaders >= 2, validated=validated,
                  sample={"static": {"tpb": tpb, "hold_ticks": hold_t, "readers": nreaders, "reads": sum(len(v) for v in reads.values())}} if i < 2 else None)
         ctx.count("static:readers=%d" % nreaders)
         if bad:
-            ctx.violation(bad[0], bad[1], {"suite": "static", "tpb": tpb, "hold_ticks": hold_t, "values": vals, "readers": nreaders, "ticks": n,
+            ctx.violation(bad[0], bad[1], {"suite": "static", "tpb": tpb, "hold_ticks": hold_t, "hold_beats": hold, "values": vals, "readers": nreaders, "ticks": n,
                                             "repeats": reps, "late": {str(k): list(v) for k, v in late.items()},
                                             "wrapped_after_read": list(inner_rewound),
                                             "reads_seq_tick_reader_value": [[sq, j, k, v] for (sq, j, k, v, t) in allreads[:80]]})
